@@ -155,15 +155,15 @@ theorem bestFrom_spec : ∀ (rs : List Rule) (ds : List Regex) (acc : Option (In
 
 /-- The derivatives of the rules active in `sc` by the word `u`. -/
 def vecAt (rules : List Rule) (sc : Int) (u : List Int) : List Regex :=
-  (initVec rules sc).map fun d => derivs d u
+  (initVec rules sc).map fun d => derivsN d u
 
 theorem vecAt_nil (rules : List Rule) (sc : Int) : vecAt rules sc [] = initVec rules sc := by
-  unfold vecAt derivs
+  unfold vecAt derivsN
   simp
 
 theorem stepVec_vecAt (rules : List Rule) (sc : Int) (u : List Int) (s : Int) :
     stepVec s (vecAt rules sc u) = vecAt rules sc (u ++ [s]) := by
-  unfold stepVec vecAt derivs
+  unfold stepVec vecAt derivsN
   simp [List.foldl_append]
 
 theorem vecAt_length (rules : List Rule) (sc : Int) (u : List Int) : (vecAt rules sc u).length = rules.length := by
@@ -174,7 +174,7 @@ theorem L_vecAt (rules : List Rule) (sc : Int) (u : List Int) (k : Nat) (h : k <
   have hk : k < rules.length := by rw [vecAt_length] at h; exact h
   unfold RuleMatches
   simp only [vecAt, initVec, List.getElem_map]
-  rw [derivs_correct]
+  rw [derivsN_correct]
   rw [List.getElem?_eq_getElem hk]
   constructor
   · intro hl
